@@ -25,3 +25,56 @@ package check
 //@        lessSym(0, strord(rs.results[i].fileSymbol.FileName), rs.results[i].fileSymbol.Loc.StartLine, rs.results[i].fileSymbol.Loc.StartColumn, strord(rs.results[i].fileSymbol.Name),
 //@                0, strord(rs.results[j].fileSymbol.FileName), rs.results[j].fileSymbol.Loc.StartLine, rs.results[j].fileSymbol.Loc.StartColumn, strord(rs.results[j].fileSymbol.Name))))
 //@ end
+
+//@ typeinv AllProject: forallvals(v, self.createTypeMap, forall(k, 0, len(v.List), v.List[k] != nil))
+
+// ---- C15 (and C01): looking through T[] / table<K,V> / ---@alias to the element type ----
+// tsize: size of an annotation type tree. ASSUMED (finite trees built by the annotation parser): every
+// alternative of a union is smaller than the union.
+//@ rec tsize(t annotateast.Type) int
+//@ axiom tsize_nonneg: forall t annotateast.Type :: tsize(t) :: tsize(t) >= 0
+//@ axiom tsize_union: forall t annotateast.Type :: tsize(t) :: typeis(t, "*annotateast.MultiType") ==>
+//@      forall(k, 0, len(as(t, "*annotateast.MultiType").TypeList), tsize(as(t, "*annotateast.MultiType").TypeList[k]) < tsize(t))
+
+// The value accessor: table<K,V> gives V; unions are searched in order; an alias is looked through with the
+// SAME accessor (never the key or array one); the recursion terminates: (aliases still allowed, type size) decreases.
+//@ func (*AllProject).getAllTableType
+//@   props C15 C01
+//@   sweep C01
+//@   measure 33 - aliasDepth, tsize(astType)
+//@   requires aliasDepth >= 0
+//@   ensures[table-gives-its-value-type] aliasDepth <= 32 && typeis(astType, "*annotateast.TableType") && !as(astType, "*annotateast.TableType").EmptyFlag ==> arrayType == as(astType, "*annotateast.TableType").ValueType
+//@   ensures[bare-table-gives-nothing] typeis(astType, "*annotateast.TableType") && as(astType, "*annotateast.TableType").EmptyFlag ==> arrayType == nil
+//@   ensures[alias-keeps-the-accessor] hits("getAllTableKeyType#0") == 0 && hits("getAllArrayType#0") == 0 && hits("GetAllTableKeyType#0") == 0 && hits("GetAllArrayType#0") == 0
+//@ end
+
+//@ func (*AllProject).getAllTableKeyType
+//@   props C15 C01
+//@   sweep C01
+//@   measure 33 - aliasDepth, tsize(astType)
+//@   requires aliasDepth >= 0
+//@   ensures[table-gives-its-key-type] aliasDepth <= 32 && typeis(astType, "*annotateast.TableType") && !as(astType, "*annotateast.TableType").EmptyFlag ==> arrayType == as(astType, "*annotateast.TableType").KeyType
+//@   ensures[alias-keeps-the-accessor] hits("getAllTableType#0") == 0 && hits("getAllArrayType#0") == 0 && hits("GetAllTableType#0") == 0 && hits("GetAllArrayType#0") == 0
+//@ end
+
+//@ func (*AllProject).getAllArrayType
+//@   props C15 C01
+//@   sweep C01
+//@   measure 33 - aliasDepth, tsize(astType)
+//@   requires aliasDepth >= 0
+//@   ensures[array-gives-its-item-type] aliasDepth <= 32 && typeis(astType, "*annotateast.ArrayType") ==> arrayType == as(astType, "*annotateast.ArrayType").ItemType
+//@   ensures[alias-keeps-the-accessor] hits("getAllTableType#0") == 0 && hits("getAllTableKeyType#0") == 0 && hits("GetAllTableType#0") == 0 && hits("GetAllTableKeyType#0") == 0
+//@ end
+
+//@ func (*AllProject).GetAllTableType
+//@   props C15
+//@   ensures[delegates-to-the-value-accessor] hits("getAllTableType#0") == 1
+//@ end
+//@ func (*AllProject).GetAllTableKeyType
+//@   props C15
+//@   ensures[delegates-to-the-key-accessor] hits("getAllTableKeyType#0") == 1
+//@ end
+//@ func (*AllProject).GetAllArrayType
+//@   props C15
+//@   ensures[delegates-to-the-array-accessor] hits("getAllArrayType#0") == 1
+//@ end
